@@ -19,7 +19,7 @@ Extraction "model.ml"
   CookieModel.from_raw CookieModel.write_cookie CookieModel.jar_add_from_raw
   HeaderModel.conn_parse HeaderModel.conn_write HeaderModel.enc_parse HeaderModel.enc_write HeaderModel.expect_parse HeaderModel.expect_write
   HeaderModel.cl_parse HeaderModel.cl_write HeaderModel.cc_write HeaderModel.cc_parse_top HeaderModel.host_parse HeaderModel.host_write HeaderModel.hdr_lookup HeaderModel.server_parse HeaderModel.server_write
-  DateModel.date_write DateModel.date_parse DateModel.date_lo DateModel.date_hi
+  DateModel.date_write DateModel.date_parse DateModel.date_lo DateModel.date_hi DateModel.date_read DateModel.imf_write
   TransportModel.events TransportModel.issue TransportModel.on_ready TransportModel.drain_event
   WireModel.put_on_wire WireModel.render_stream WireModel.write_request WireModel.dechunk
   LifecycleModel.lrun LifecycleModel.qrun LifecycleModel.q_stale LifecycleModel.frun
